@@ -49,6 +49,7 @@ const (
 	kLimbs  // (pointer to) four uint64 limbs, in the packages internal/field and internal/scalar
 	kErr    // error: none, or the name of the package's error variable
 	kString // string
+	kBig    // *big.Int: a natural number (the package only builds them from byte strings)
 )
 
 type slVar struct {
@@ -66,6 +67,7 @@ type slParam struct {
 	name     string
 	kind     slKind
 	optional bool // a pointer parameter the function tests against nil: an `Option`
+	byValue  bool // an array parameter: the callee works on a copy
 }
 
 type slSum struct {
@@ -81,6 +83,9 @@ type slSum struct {
 	usesH            bool
 	usesF, usesB     bool
 	usesBY           bool     // the byte-level methods of field.Element the point codec calls (ByteOps)
+	usesOPS          bool     // the operations record the scalar inversion chain is generic over
+	usesFuel         bool     // contains (or calls) a `for cond { }` loop: an explicit bound on its iterations
+	rngParam         int      // >= 0: index of the hidden parameter holding the entropy stream (crypto/rand.Reader)
 	aux              []string // loop bodies, emitted before the function
 	text             string
 	failed           string
@@ -101,20 +106,22 @@ type slGen struct {
 }
 
 type slFn struct {
-	g         *slGen
-	sum       *slSum
-	vars      map[types.Object]*slVar
-	classes   map[int]map[int]bool // class -> parameter indices whose memory it may be
-	next      int
-	tmp       int
-	lines     *[]string
-	ind       string
-	paramVar  []*slVar
-	usesH     bool
-	touched   map[*slVar]bool
-	loops     int
-	inIndex   int // >0 while translating an index or slice bound: a negative value there is a panic
-	inNilTest bool
+	g          *slGen
+	sum        *slSum
+	vars       map[types.Object]*slVar
+	classes    map[int]map[int]bool // class -> parameter indices whose memory it may be
+	next       int
+	tmp        int
+	lines      *[]string
+	ind        string
+	paramVar   []*slVar
+	usesH      bool
+	touched    map[*slVar]bool
+	loops      int
+	inIndex    int // >0 while translating an index or slice bound: a negative value there is a panic
+	inNilTest  bool
+	lastRetVar *slVar // set by call() when the call's value is one of its argument variables
+	rngVar     *slVar // the entropy stream, when the function reads crypto/rand.Reader
 }
 
 func slKindOf(t types.Type) (slKind, bool) {
@@ -150,6 +157,9 @@ func slKindOf(t types.Type) (slKind, bool) {
 			return kErr, true
 		}
 	case *types.Pointer:
+		if u.Elem().String() == "math/big.Int" {
+			return kBig, true
+		}
 		switch u.Elem().String() {
 		case modPath + ".Element":
 			return kPoint, true
@@ -185,6 +195,8 @@ func leanKind(k slKind) string {
 		return "Option String"
 	case kString:
 		return "String"
+	case kBig:
+		return "Nat"
 	}
 	return "Unit"
 }
@@ -491,7 +503,7 @@ func (f *slFn) natExpr(e ast.Expr) string {
 				}
 				return fmt.Sprintf("(%s %% %s)", a, b)
 			}
-			if x.Op == token.SUB && f.inIndex > 0 && f.lengthLike(x.X) && f.lengthLike(x.Y) {
+			if x.Op == token.SUB && f.lengthLike(x.X) && f.lengthLike(x.Y) {
 				t := f.fresh()
 				f.emit("let %s ← Prim.subNat %s %s", t, slAtom(a), slAtom(b))
 				return t
@@ -643,6 +655,9 @@ func (f *slFn) bytesExpr(e ast.Expr) (string, int) {
 				return fmt.Sprintf("(GenDecode.encode BY F %s)", slAtom(r)), f.newClass()
 			}
 			if id, ok := s.X.(*ast.Ident); ok {
+				if v := f.lookup(id); v != nil && v.kind == kBig && s.Sel.Name == "Bytes" && len(x.Args) == 0 {
+					return fmt.Sprintf("(Prim.natBytes %s)", v.name), f.newClass()
+				}
 				if v := f.lookup(id); v != nil && v.kind == kHash && s.Sel.Name == "Sum" && len(x.Args) == 1 {
 					if a, ok := x.Args[0].(*ast.Ident); ok && a.Name == "nil" {
 						f.usesH = true
@@ -764,6 +779,22 @@ func (f *slFn) opaqueExpr(e ast.Expr) (string, int, slKind) {
 					f.write(rv, false, "set")
 					f.emit("let %s := GenElementAPI.setRaw F %s", rv.name, slAtom(arg))
 					return rv.name, rv.class, kPoint
+				case "Base":
+					// overwrites all three coordinates of its receiver and returns it
+					if !sameInts(f.ptrRet(fn), []int{0}) || len(x.Args) != 0 {
+						f.fail("Base no longer returns its receiver only")
+					}
+					f.sum.usesF = true
+					if rv := f.baseVar(sel.X); rv != nil && rv.kind == kPoint {
+						f.write(rv, false, "Base")
+						f.emit("let %s := GenElementAPI.base F", rv.name)
+						return rv.name, rv.class, kPoint
+					}
+					_, c, rk := f.opaqueExpr(sel.X)
+					if rk != kPoint {
+						f.fail("receiver of Base")
+					}
+					return "(GenElementAPI.base F)", c, kPoint
 				case "copy":
 					if len(f.ptrRet(fn)) != 0 || len(x.Args) != 0 {
 						f.fail("copy may return its receiver")
@@ -962,6 +993,21 @@ func (f *slFn) call(x *ast.CallExpr) (string, int, slKind) {
 		}
 		return r, -1, kNat
 	}
+	if og.mode == "scalar" && key == "scalar.Invert" && len(callArgs) == 2 {
+		// the addition chain, translated by the chain mode generically over the operations record
+		_, _, rv := f.limbExpr(callArgs[0])
+		xe, _, _ := f.limbExpr(callArgs[1])
+		if rv == nil {
+			f.fail("receiver of the inversion chain is not a variable")
+		}
+		if !sameInts(f.ptrRet(fn), []int{0}) {
+			f.fail("the inversion chain no longer returns its receiver only")
+		}
+		f.sum.usesOPS = true
+		f.write(rv, false, "Invert")
+		f.emit("let %s := ScalarChain.invert OPS %s", rv.name, slAtom(xe))
+		return rv.name, rv.class, kLimbs
+	}
 	s := og.translateIn(key)
 	if s.failed != "" {
 		f.fail("callee %s not translated", key)
@@ -973,6 +1019,10 @@ func (f *slFn) call(x *ast.CallExpr) (string, int, slKind) {
 	var args []string
 	var argVars []*slVar
 	var argClass []int
+	if s.usesOPS {
+		f.sum.usesOPS = true
+		args = append(args, "OPS")
+	}
 	if s.usesBY {
 		f.sum.usesBY = true
 		args = append(args, "BY")
@@ -989,6 +1039,10 @@ func (f *slFn) call(x *ast.CallExpr) (string, int, slKind) {
 		f.usesH = true
 		args = append(args, "H")
 	}
+	if s.usesFuel {
+		f.sum.usesFuel = true
+		args = append(args, "fuel")
+	}
 	sig := fn.Type().(*types.Signature)
 	for i, p := range s.params {
 		if sig.Variadic() && i == len(s.params)-1 {
@@ -1003,6 +1057,15 @@ func (f *slFn) call(x *ast.CallExpr) (string, int, slKind) {
 			}
 			args = append(args, "["+strings.Join(el, ", ")+"]")
 			argVars = append(argVars, nil)
+			continue
+		}
+		if i == s.rngParam {
+			if f.rngVar == nil {
+				f.fail("%s reads the entropy source; the caller does not", s.goName)
+			}
+			args = append(args, f.rngVar.name)
+			argVars = append(argVars, f.rngVar)
+			argClass = append(argClass, f.rngVar.class)
 			continue
 		}
 		if i >= len(callArgs) {
@@ -1041,6 +1104,9 @@ func (f *slFn) call(x *ast.CallExpr) (string, int, slKind) {
 			}
 			args = append(args, slAtom(e))
 			argVars = append(argVars, v)
+			if p.byValue {
+				c = -1
+			}
 			argClass = append(argClass, c)
 		case kHash:
 			v := f.baseVar(a)
@@ -1105,6 +1171,7 @@ func (f *slFn) call(x *ast.CallExpr) (string, int, slKind) {
 	}
 	f.emit("let %s ← %s %s", lhs, callee, strings.Join(args, " "))
 	if s.retParam >= 0 && len(s.results) == 0 {
+		f.lastRetVar = argVars[s.retParam]
 		return argVars[s.retParam].name, argClass[s.retParam], s.params[s.retParam].kind
 	}
 	if len(s.results) != 1 {
@@ -1178,6 +1245,24 @@ func (f *slFn) assigned(stmts []ast.Stmt, from token.Pos) []*slVar {
 			case *ast.SliceExpr:
 				e = x.X
 				continue
+			case *ast.StarExpr:
+				e = x.X
+				continue
+			case *ast.UnaryExpr:
+				if x.Op == token.AND {
+					e = x.X
+					continue
+				}
+			case *ast.SelectorExpr:
+				if x.Sel.Name == "E" || x.Sel.Name == "S" || x.Sel.Name == "s" {
+					e = x.X
+					continue
+				}
+			case *ast.CallExpr:
+				if _, isConv := f.isConv(x); isConv {
+					e = x.Args[0]
+					continue
+				}
 			case *ast.Ident:
 				if v := f.lookup(x); v != nil && v.declPos < from {
 					set[v] = true
@@ -1200,11 +1285,27 @@ func (f *slFn) assigned(stmts []ast.Stmt, from token.Pos) []*slVar {
 					if id.Name == "copy" && len(x.Args) == 2 {
 						mark(x.Args[0])
 					}
-					if fn, ok := f.g.info.Uses[id].(*types.Func); ok && fn.Pkg() != nil && fn.Pkg().Path() == modPath {
-						cs := f.g.translate(fn.Name())
+				}
+				pointMethod := false
+				if sel, ok := x.Fun.(*ast.SelectorExpr); ok {
+					if k, ok := slKindOf(f.g.info.TypeOf(sel.X)); ok && k == kPoint && f.g.info.Selections[sel] != nil {
+						pointMethod = true // the methods of *Element go through the table of opaqueExpr (marked below)
+					}
+				}
+				if fn, og, key, callArgs := f.resolveCallee(x); fn != nil && !pointMethod {
+					if sg := og.fiatSig(key); sg != nil {
+						for i := range sg.params {
+							if sg.output[i] && i < len(x.Args) {
+								mark(x.Args[i])
+							}
+						}
+					} else if og.mode == "scalar" && key == "scalar.Invert" && len(callArgs) > 0 {
+						mark(callArgs[0])
+					} else {
+						cs := og.translateIn(key)
 						for _, w := range cs.writes {
-							if w < len(x.Args) {
-								mark(x.Args[w])
+							if w < len(callArgs) {
+								mark(callArgs[w])
 							}
 						}
 					}
@@ -1223,6 +1324,15 @@ func (f *slFn) assigned(stmts []ast.Stmt, from token.Pos) []*slVar {
 					}
 					if selName(sel) == "binary.BigEndian.PutUint16" && len(x.Args) == 2 {
 						mark(x.Args[0])
+					}
+					if selName(sel) == "binary.BigEndian.PutUint64" && len(x.Args) == 2 {
+						mark(x.Args[0])
+					}
+					if selName(sel) == "io.ReadFull" && len(x.Args) == 2 {
+						mark(x.Args[1])
+						if f.rngVar != nil {
+							set[f.rngVar] = true
+						}
 					}
 				}
 			}
@@ -1362,7 +1472,12 @@ func (f *slFn) assign(lhs ast.Expr, rhs ast.Expr, define bool) {
 		}
 		f.fail("hash value from %s", nodeText(f.g.imp.fset, rhs))
 	case kLimbs:
-		e, c, _ := f.limbExpr(rhs)
+		e, c, bv := f.limbExpr(rhs)
+		if isNew && bv != nil && pointerLike(f.g.info.TypeOf(lhs)) {
+			// a copy of a pointer: another name for the same limbs
+			f.vars[f.g.info.Defs[id]] = bv
+			return
+		}
 		if isNew {
 			v = f.declare(id, kLimbs, c)
 		} else {
@@ -1375,7 +1490,38 @@ func (f *slFn) assign(lhs ast.Expr, rhs ast.Expr, define bool) {
 		if e != v.name {
 			f.emit("let %s : L4 := %s", v.name, e)
 		}
+	case kBig:
+		e := f.bigExpr(rhs)
+		if !isNew {
+			f.fail("reassignment of a big integer variable")
+		}
+		v = f.declare(id, kBig, -1)
+		f.emit("let %s : Nat := %s", v.name, e)
+	case kErr:
+		e := f.errExpr(rhs)
+		if isNew {
+			v = f.declare(id, kErr, -1)
+		} else {
+			v = f.lookup(id)
+		}
+		f.emit("let %s : Option String := %s", v.name, e)
 	case kElem, kPoint, kScalar:
+		if k == kScalar {
+			if _, isCall := rhs.(*ast.CallExpr); isCall {
+				// a scalar from a function of the package: limbs
+				e, c, _ := f.limbExpr(rhs)
+				if isNew {
+					v = f.declare(id, k, c)
+				} else {
+					v = f.lookup(id)
+					v.class = c
+				}
+				if e != v.name {
+					f.emit("let %s : L4 := %s", v.name, e)
+				}
+				return
+			}
+		}
 		e, c, ek := f.opaqueExpr(rhs)
 		if ek != k {
 			f.fail("kind of %s", nodeText(f.g.imp.fset, rhs))
@@ -1442,6 +1588,33 @@ func (f *slFn) stmt(s ast.Stmt) {
 					bv := f.declare(b, kBytes, f.newClass())
 					ev := f.declare(e, kErr, -1)
 					f.emit("let (%s, %s) := Prim.hexDecodeString %s", bv.name, ev.name, slAtom(arg))
+					return
+				}
+			}
+		}
+		if len(x.Lhs) == 2 && len(x.Rhs) == 1 && x.Tok == token.DEFINE {
+			if c, ok := x.Rhs[0].(*ast.CallExpr); ok && selName(c.Fun) == "io.ReadFull" && len(c.Args) == 2 && selName(c.Args[0]) == "rand.Reader" {
+				e, okE := x.Lhs[1].(*ast.Ident)
+				sl, okS := c.Args[1].(*ast.SliceExpr)
+				if isBlank(x.Lhs[0]) && okE && f.g.info.Defs[e] != nil && okS && sl.Low == nil && sl.High == nil && f.rngVar != nil {
+					bv := f.baseVar(sl.X)
+					if bv == nil || bv.kind != kBytes {
+						f.fail("ReadFull destination")
+					}
+					f.write(bv, false, "ReadFull")
+					ev := f.declare(e, kErr, -1)
+					if f.touched != nil {
+						f.touched[f.rngVar] = true
+					}
+					f.emit("let (%s, %s, %s) := Prim.readFull %s %s", f.rngVar.name, bv.name, ev.name, f.rngVar.name, bv.name)
+					return
+				}
+			}
+		}
+		if len(x.Lhs) == 1 && len(x.Rhs) == 1 && x.Tok == token.ASSIGN && isBlank(x.Lhs[0]) {
+			if c, ok := x.Rhs[0].(*ast.CallExpr); ok {
+				if fn, _, _, _ := f.resolveCallee(c); fn != nil {
+					f.call(c) // `_ = f(...)`: evaluated for its effects
 					return
 				}
 			}
@@ -1532,6 +1705,23 @@ func (f *slFn) stmt(s ast.Stmt) {
 				f.emit("let _ ← (none : Option Unit)")
 				return
 			case "copy":
+				if d, ok := c.Args[0].(*ast.SliceExpr); ok && d.Low == nil && d.High == nil {
+					if sr, ok := c.Args[1].(*ast.SliceExpr); ok && sr.Low == nil && sr.High == nil {
+						kd, okd := slKindOf(f.g.info.TypeOf(d.X))
+						ks, oks := slKindOf(f.g.info.TypeOf(sr.X))
+						if okd && oks && (kd == kLimbs || kd == kScalar) && (ks == kLimbs || ks == kScalar) {
+							// copy(p[:], q[:]) on two four-limb arrays: all four limbs
+							_, _, dv := f.limbExpr(d.X)
+							se, _, _ := f.limbExpr(sr.X)
+							if dv == nil {
+								f.fail("copy destination")
+							}
+							f.write(dv, false, "copy")
+							f.emit("let %s : L4 := %s", dv.name, se)
+							return
+						}
+					}
+				}
 				if sl, ok := c.Args[0].(*ast.SliceExpr); ok && sl.High == nil && sl.Low != nil && !sl.Slice3 {
 					// copy(dst[lo:], src)
 					v := f.baseVar(sl.X)
@@ -1566,19 +1756,12 @@ func (f *slFn) stmt(s ast.Stmt) {
 					return
 				}
 			}
-			if selName(sel) == "scalar.HashToFieldElement" && len(c.Args) == 2 {
-				// scalar.HashToFieldElement(&s.S, [48]byte(..)): overwrites the limbs of s
-				if u, ok := c.Args[0].(*ast.UnaryExpr); ok && u.Op == token.AND {
-					if fs, ok := u.X.(*ast.SelectorExpr); ok && fs.Sel.Name == "S" {
-						if v := f.baseVar(fs.X); v != nil && v.kind == kScalar {
-							arr := f.toArray(c.Args[1])
-							f.sum.usesB = true
-							f.emit("let %s : L4 := B.hashToScalar %s", v.name, arr)
-							return
-						}
-					}
+			if id, ok := sel.X.(*ast.Ident); ok && sel.Sel.Name == "Exp" && len(c.Args) == 3 {
+				if v := f.lookup(id); v != nil && v.kind == kBig {
+					a, b, m := f.bigExpr(c.Args[0]), f.bigExpr(c.Args[1]), f.bigExpr(c.Args[2])
+					f.emit("let %s : Nat := Prim.bigExp %s %s %s", v.name, a, b, m)
+					return
 				}
-				f.fail("scalar.HashToFieldElement destination")
 			}
 			if selName(sel) == "binary.BigEndian.PutUint64" && len(c.Args) == 2 {
 				sl, ok := c.Args[0].(*ast.SliceExpr)
@@ -1660,7 +1843,15 @@ func (f *slFn) stmt(s ast.Stmt) {
 		}
 	case *ast.IfStmt:
 		if x.Init != nil {
-			f.fail("if with init")
+			// the variables of the init statement are scoped to the if: translate it first, forget them afterwards
+			init := x.Init
+			rest := *x
+			rest.Init = nil
+			f.scoped(func() {
+				f.stmt(init)
+				f.stmt(&rest)
+			})
+			return
 		}
 		var elseList []ast.Stmt
 		if x.Else != nil {
@@ -1738,6 +1929,12 @@ func isBlank(e ast.Expr) bool {
 
 // loopBody translates a loop body as a function of the carried variables; the alias partition must be invariant.
 func (f *slFn) loopBody(body []ast.Stmt, pos token.Pos, bind func() *slVar, indexFirst bool) (string, []*slVar) {
+	return f.loopBodyG(body, pos, bind, indexFirst, nil)
+}
+
+// loopBodyG: with whileCond set, the generated function is one step of a `for cond { body }` loop: it evaluates the condition
+// on the carried variables and returns (true, state after the body) or (false, state unchanged)
+func (f *slFn) loopBodyG(body []ast.Stmt, pos token.Pos, bind func() *slVar, indexFirst bool, whileCond ast.Expr) (string, []*slVar) {
 	vs := f.assigned(body, pos)
 	outerVars := map[types.Object]*slVar{}
 	outerSet := map[*slVar]bool{}
@@ -1753,11 +1950,25 @@ func (f *slFn) loopBody(body []ast.Stmt, pos token.Pos, bind func() *slVar, inde
 	f.lines = &ls
 	f.ind = "  "
 	var lv *slVar
-	f.scoped(func() {
-		lv = bind()
-		f.stmts(body)
-	})
-	f.emit("pure %s", tupleOf(vs))
+	if whileCond != nil {
+		c := f.cond(whileCond)
+		inner := f.capture(func() {
+			f.scoped(func() { f.stmts(body) })
+			f.emit("pure (true, %s)", tupleOf(vs))
+		})
+		f.emit("if %s then (do", c)
+		*f.lines = append(*f.lines, inner...)
+		(*f.lines)[len(*f.lines)-1] += ") else (do"
+		f.ind += "    "
+		f.emit("pure (false, %s))", tupleOf(vs))
+		f.ind = f.ind[:len(f.ind)-4]
+	} else {
+		f.scoped(func() {
+			lv = bind()
+			f.stmts(body)
+		})
+		f.emit("pure %s", tupleOf(vs))
+	}
 	f.lines, f.ind = outer, oldInd
 	bodyH, bodyF := f.usesH, f.sum.usesF
 	touched := f.touched
@@ -1813,6 +2024,12 @@ func (f *slFn) loopBody(body []ast.Stmt, pos token.Pos, bind func() *slVar, inde
 		fmt.Fprintf(&b, " (%s : %s)", v.name, leanKind(v.kind))
 		call += " " + v.name
 	}
+	if whileCond != nil {
+		fmt.Fprintf(&b, " : %s → Option (Bool × %s) := fun %s => do\n", sigma, sigma, patOf(vs))
+		b.WriteString(strings.Join(ls, "\n") + "\n")
+		f.sum.aux = append(f.sum.aux, b.String())
+		return "(" + call + ")", vs
+	}
 	lk := leanKind(lv.kind)
 	if indexFirst {
 		fmt.Fprintf(&b, " : %s → %s → Option %s := fun %s %s => do\n", lk, sigma, sigma, lv.name, patOf(vs))
@@ -1824,7 +2041,25 @@ func (f *slFn) loopBody(body []ast.Stmt, pos token.Pos, bind func() *slVar, inde
 	return "(" + call + ")", vs
 }
 
+// whileStmt: `for cond { body }` — the number of iterations is not known to the translator: the generated function takes an
+// explicit bound `fuel` and is `none` when it is exhausted (which the theorems about it exclude for a sufficient bound)
+func (f *slFn) whileStmt(x *ast.ForStmt) {
+	ast.Inspect(x.Body, func(n ast.Node) bool {
+		if _, ok := n.(*ast.BranchStmt); ok {
+			f.fail("break/continue")
+		}
+		return true
+	})
+	fnName, vs := f.loopBodyG(x.Body.List, x.Pos(), nil, false, x.Cond)
+	f.sum.usesFuel = true
+	f.emit("let %s ← Prim.loopWhile fuel %s %s", patOf(vs), tupleOf(vs), fnName)
+}
+
 func (f *slFn) forStmt(x *ast.ForStmt) {
+	if x.Init == nil && x.Post == nil && x.Cond != nil {
+		f.whileStmt(x)
+		return
+	}
 	// for i := a; i <= b; i++ { body }   with i and b not assigned in the body
 	init, ok := x.Init.(*ast.AssignStmt)
 	cond, ok2 := x.Cond.(*ast.BinaryExpr)
@@ -2084,6 +2319,27 @@ func (f *slFn) tailBlock(stmts []ast.Stmt, finish func([]ast.Expr)) {
 				if x.Else != nil || !endsInReturn(x.Body.List) {
 					f.fail("return inside an if that is not a guard")
 				}
+				if be, ok := x.Cond.(*ast.BinaryExpr); ok && be.Op == token.LOR && x.Init == nil {
+					if nv := f.nilTest(be.X); nv != nil {
+						// p == nil || C: the nil case, then C on the non-nil value
+						st0 := f.saveState()
+						thenL := f.capture(func() { f.tailBlock(x.Body.List, finish) })
+						f.restoreState(st0)
+						nv.wrapped = false
+						rest := *x
+						rest.Cond = be.Y
+						tail := append([]ast.Stmt{&rest}, stmts[i+1:]...)
+						elseL := f.capture(func() { f.tailBlock(tail, finish) })
+						f.emit("match %s with", nv.name)
+						f.emit("| none => (do")
+						*f.lines = append(*f.lines, thenL...)
+						(*f.lines)[len(*f.lines)-1] += ")"
+						f.emit("| some %s => (do", nv.name)
+						*f.lines = append(*f.lines, elseL...)
+						(*f.lines)[len(*f.lines)-1] += ")"
+						return
+					}
+				}
 				if nv := f.nilTest(x.Cond); nv != nil && x.Init == nil {
 					st0 := f.saveState()
 					thenL := f.capture(func() { f.tailBlock(x.Body.List, finish) })
@@ -2234,7 +2490,40 @@ func (f *slFn) errExpr(e ast.Expr) string {
 	return ""
 }
 
+// bigExpr: a *big.Int value: a variable, or new(big.Int).SetBytes(b) / big.NewInt(c).SetBytes(b)
+func (f *slFn) bigExpr(e ast.Expr) string {
+	switch x := e.(type) {
+	case *ast.ParenExpr:
+		return f.bigExpr(x.X)
+	case *ast.Ident:
+		if v := f.lookup(x); v != nil && v.kind == kBig {
+			return v.name
+		}
+	case *ast.CallExpr:
+		if sel, ok := x.Fun.(*ast.SelectorExpr); ok && sel.Sel.Name == "SetBytes" && len(x.Args) == 1 {
+			if in, ok := sel.X.(*ast.CallExpr); ok {
+				fresh := false
+				if id, ok := in.Fun.(*ast.Ident); ok && id.Name == "new" && len(in.Args) == 1 && selName(in.Args[0]) == "big.Int" {
+					fresh = true
+				}
+				if selName(in.Fun) == "big.NewInt" && len(in.Args) == 1 {
+					fresh = true
+				}
+				if fresh {
+					b, _ := f.bytesExpr(x.Args[0])
+					return fmt.Sprintf("(Spec.os2ip %s)", slAtom(b))
+				}
+			}
+		}
+	}
+	f.fail("big integer expression %s", nodeText(f.g.imp.fset, e))
+	return ""
+}
+
 func (f *slFn) strExpr(e ast.Expr) string {
+	if tv, ok := f.g.info.Types[e]; ok && tv.Value != nil && tv.Value.Kind() == constant.String {
+		return fmt.Sprintf("%q", constant.StringVal(tv.Value))
+	}
 	switch x := e.(type) {
 	case *ast.ParenExpr:
 		return f.strExpr(x.X)
@@ -2273,7 +2562,7 @@ func (g *slGen) translate(name string) *slSum {
 		}
 		return s
 	}
-	s := &slSum{goName: name, leanName: g.leanName(name), retParam: -1}
+	s := &slSum{goName: name, leanName: g.leanName(name), retParam: -1, rngParam: -1}
 	g.sums[name] = s
 	g.busy[name] = true
 	defer func() { g.busy[name] = false }()
@@ -2344,9 +2633,27 @@ func (g *slGen) fn(s *slSum, fd *ast.FuncDecl) {
 				})
 			}
 			v.wrapped = opt
-			s.params = append(s.params, slParam{v.name, k, opt})
+			s.params = append(s.params, slParam{v.name, k, opt, byValue})
 			idx++
 		}
+	}
+	usesRand := false
+	ast.Inspect(fd.Body, func(n ast.Node) bool {
+		if se, ok := n.(*ast.SelectorExpr); ok && selName(se) == "rand.Reader" {
+			usesRand = true
+		}
+		return true
+	})
+	if usesRand {
+		// the entropy source is a hidden parameter: the bytes not yet consumed; it is handed back like a written parameter
+		v := &slVar{name: "rng", kind: kBytes, class: f.newClass(idx), param: idx, declPos: fd.Pos()}
+		f.vars[types.NewVar(token.NoPos, nil, "rng", types.Typ[types.Int])] = v
+		f.paramVar = append(f.paramVar, v)
+		f.rngVar = v
+		s.params = append(s.params, slParam{name: "rng", kind: kBytes})
+		s.rngParam = idx
+		f.addWrite(idx)
+		idx++
 	}
 	var resKinds []slKind
 	var resPtr []bool
@@ -2508,6 +2815,9 @@ func (g *slGen) fn(s *slSum, fd *ast.FuncDecl) {
 	if s.usesF || s.usesB || s.usesBY {
 		b.WriteString(" {α : Type}")
 	}
+	if s.usesOPS {
+		b.WriteString(" (OPS : FieldOps L4)")
+	}
 	if s.usesBY {
 		b.WriteString(" (BY : ByteOps α)")
 	}
@@ -2519,6 +2829,9 @@ func (g *slGen) fn(s *slSum, fd *ast.FuncDecl) {
 	}
 	if s.usesH {
 		b.WriteString(" (H : List Nat → List Nat)")
+	}
+	if s.usesFuel {
+		b.WriteString(" (fuel : Nat)")
 	}
 	for _, p := range s.params {
 		if p.optional {
@@ -2584,7 +2897,7 @@ func (g *slGen) write(path, ns, imports, doc, opens string, names []string, root
 		b.WriteString(s.text + "\n")
 	}
 	for _, r := range roots {
-		if !done[r] {
+		if !done[r] && g.sums[r].failed != "" {
 			fmt.Fprintf(&b, "-- NOT TRANSLATED: %s (%s)\n\n", r, g.sums[r].failed)
 			nt = append(nt, r)
 		}
@@ -2639,7 +2952,8 @@ func genBytesMode(outDir string) {
 
 	slMode = "scalar"
 	gs := newSlGen(modPath+"/internal/scalar", "scalar", "FiatScalar", "scalar", "GenScalarBytes")
-	scalarRoots := []string{"BytesToNonMontgomery", "NonMontgomeryToBytes", "ReduceBytes", "FromBytesNoReduce", "HashToFieldElement"}
+	scalarRoots := []string{"BytesToNonMontgomery", "NonMontgomeryToBytes", "ReduceBytes", "FromBytesNoReduce", "HashToFieldElement",
+		"scalar.Multiply", "scalar.Square", "Invert"}
 	for _, r := range scalarRoots {
 		gs.bytesRoots[r] = true
 	}
@@ -2662,7 +2976,7 @@ func genBytesMode(outDir string) {
 		g.translate(r)
 	}
 	nGroup := len(g.order)
-	codecRoots := []string{"Scalar.Encode", "Scalar.Decode", "Scalar.Hex", "Scalar.DecodeHex", "Scalar.MarshalBinary", "Scalar.UnmarshalBinary", "Scalar.Bits"}
+	codecRoots := []string{"Scalar.Encode", "Scalar.Decode", "Scalar.Hex", "Scalar.DecodeHex", "Scalar.MarshalBinary", "Scalar.UnmarshalBinary", "Scalar.Bits", "Scalar.Invert"}
 	for _, r := range codecRoots {
 		g.translate(r)
 	}
@@ -2676,17 +2990,22 @@ func genBytesMode(outDir string) {
 	for _, r := range mulRoots {
 		g.translate(r)
 	}
+	nMul := len(g.order)
+	miscRoots := []string{"Base", "NewElement", "NewScalar", "Scalar.Copy", "Scalar.Pow", "Scalar.Random", "Ciphersuite", "ScalarLength", "ElementLength", "Order"}
+	for _, r := range miscRoots {
+		g.translate(r)
+	}
 	if len(gs.order) != nScalar {
 		// a function of internal/scalar first reached from the root package: it belongs to ScalarBytes.lean as well
 		scalarRoots = append(scalarRoots, gs.order[nScalar:]...)
 	}
-	gs.write(filepath.Join(outDir, "ScalarBytes.lean"), "GenScalarBytes", "import Secp.PrimBytes\nimport Secp.Gen.FiatScalar\n",
+	gs.write(filepath.Join(outDir, "ScalarBytes.lean"), "GenScalarBytes", "import Secp.PrimBytes\nimport Secp.Gen.FiatScalar\nimport Secp.Gen.ScalarChain\n",
 		"/-! The byte-level functions of `internal/scalar` over the Fiat-mode definitions. -/\n", "",
 		gs.order, scalarRoots)
 	g.write(filepath.Join(outDir, "Xmd.lean"), "GenXmd", "import Secp.PrimBytes\n",
 		"/-! Byte-slice code of `xmd.go` in the `Option` monad over `List Nat` (`none`: the Go code panics or does not\nterminate). `H` is the hash function; a `hash.Hash` value is the list of bytes written since the last `Reset`. -/\n", "",
 		g.order[:nXmd], xmdRoots)
-	g.write(filepath.Join(outDir, "GroupAPI.lean"), "GenGroup", "import Secp.Prim\nimport Secp.Gen.Xmd\nimport Secp.Gen.Curve\nimport Secp.Gen.ElementAPI\n",
+	g.write(filepath.Join(outDir, "GroupAPI.lean"), "GenGroup", "import Secp.Prim\nimport Secp.Gen.Xmd\nimport Secp.Gen.Curve\nimport Secp.Gen.ElementAPI\nimport Secp.Gen.ScalarBytes\n",
 		"/-! `HashToScalar`, `HashToGroup`, `EncodeToGroup` of `group.go`: the expander call, the re-slicing and slice-to-array\nconversions of its output, then the regenerated `SSWU`, isogeny and complete addition. -/\n\n/-- the two 48-byte wide reductions (`field.Element.HashToFieldElement`, `scalar.HashToFieldElement`) -/\nstructure HashOps (α : Type) where\n  hashToField : List Nat → α\n  hashToScalar : List Nat → L4\n\n", "open GenXmd\n",
 		g.order[nXmd:nGroup], groupRoots)
 	g.write(filepath.Join(outDir, "ScalarCodec.lean"), "GenScalarCodec", "import Secp.Spec.Bytes\nimport Secp.Gen.ScalarBytes\n",
@@ -2697,7 +3016,10 @@ func genBytesMode(outDir string) {
 		g.order[nCodecS:nCodec], pointCodecRoots)
 	g.write(filepath.Join(outDir, "ElementMul.lean"), "GenElementMul", "import Secp.Gen.ScalarCodec\nimport Secp.Gen.ScalarAPI\nimport Secp.Gen.ElementAPI\n",
 		"/-! `Multiply` and `multiply` of `element.go`: the nil test, the `IsOne` shortcut, the bit expansion, the 256 iterations of the\nladder over the regenerated `Add`/`Double`, the final `set`. -/\n", "open GenScalarCodec\n",
-		g.order[nCodec:], mulRoots)
+		g.order[nCodec:nMul], mulRoots)
+	g.write(filepath.Join(outDir, "Misc.lean"), "GenMisc", "import Secp.Spec.Fp\nimport Secp.Gen.GroupAPI\nimport Secp.Gen.ElementMul\n",
+		"/-! The remaining small functions: `Base`, `NewElement`, `NewScalar`, `Scalar.Copy`, `Scalar.Pow` (through `math/big`, modelled:\n`SetBytes` = OS2IP, `Exp` = modular power, `Bytes` = minimal big-endian bytes), the constants of `group.go`. -/\n", "open GenScalarCodec GenGroup GenElementMul\n",
+		g.order[nMul:], miscRoots)
 }
 
 func quoteJoin(xs []string) string {
